@@ -288,6 +288,10 @@ def run_file(case):
     rec.update(kind="file", out="", read=[], typesok=0)
     d = core.workdir("files")
     path = os.path.join(d, f"ds_{os.getpid()}_{case['id']}.txt")
+    cwd = os.getcwd()
+    if case.get("relative"):
+        os.chdir(d)                                   # a bare file name, relative to the current directory
+        path = f"rel_{os.getpid()}_{case['id']}.txt"
     try:
         if os.path.exists(path):
             os.unlink(path)
@@ -307,6 +311,7 @@ def run_file(case):
     finally:
         if os.path.exists(path):
             os.unlink(path)
+        os.chdir(cwd)
     return rec
 
 
